@@ -146,6 +146,17 @@ def build_pool():
     for k, v in (("zzz_custom", 1), ("aaa_custom", [1, 2]), ("mmm_custom", {"b": 1, "a": 2}), ("kkk_custom", "x"), ("ddd_custom", 2.5)):
         mol_json[k] = v
     pool.append({"op": "convert", "file": "custom_keys.json", "out": "c.json", "inline": _json.dumps(mol_json, indent=1), "infmt": "json_qcschema", "outfmt": "json_qcschema"})
+    # the same object dumped twice, to two formats: the second file must be what that dump writes alone
+    unsorted = {"kind": "corpus", "file": "h2o_sto3g.fchk", "mods": [{"op": "unsorted_centres"}]}
+    plain = {"kind": "corpus", "file": "h2o_sto3g.fchk", "mods": []}
+    for obj_ in (unsorted, plain):
+        for first, second in ((("molden", "a.molden"), ("fchk", "b.fchk")), (("molden", "a.molden"), ("wfn", "b.wfn")),
+                              (("wfn", "a.wfn"), ("molden", "b.molden")), (("fchk", "a.fchk"), ("wfx", "b.wfx")),
+                              (("molekel", "a.mkl"), ("fchk", "b.fchk"))):
+            pool.append({"op": "dump_one", "fmt": second[0], "out": second[1], "obj": obj_, "first": list(first), "allow_changes": True})
+    # a GAMESS punch file whose $HESS group is short but properly terminated
+    pool.append({"op": "load_one", "file": "PCGamess_PUNCH.dat", "fmt": None,
+                 "derive": [{"kind": "hess_short"}]})
     # dumps that fail half-way because of the disk (a failed call must not leave state behind either)
     for fmt in ("xyz", "molden", "wfx", "fchk", "json_qcschema", "mol2", "pdb"):
         fname, recipes = c08.ONE[fmt]
@@ -200,12 +211,23 @@ def prepare_call(call):
         data = common.corpus_bytes(call["file"])
         if "cut" in call:
             data = data[: call["cut"]]
+        for d in call.get("derive", []):
+            if d["kind"] == "hess_short":
+                # drop the second half of the lines between $HESS and its $END
+                lines = data.splitlines(keepends=True)
+                try:
+                    a = next(i for i, l in enumerate(lines) if l.strip().startswith(b"$HESS"))
+                    b = next(i for i in range(a, len(lines)) if lines[i].strip() == b"$END")
+                    data = b"".join(lines[: a + 2 + (b - a - 2) // 2] + lines[b:])
+                except StopIteration:
+                    pass
         prep["data"] = data
     return prep
 
 
-def exec_call(call, prep, disk, prefix):
-    """Run one API call on its own paths of `disk`; returns the outcome record."""
+def exec_call(call, prep, disk, prefix, reference=False):
+    """Run one API call on its own paths of `disk`; returns the outcome record.  reference=True leaves out the
+    optional first dump of a "dump_after" call: the bytes written by a dump must equal those of the same dump alone."""
     import iodata
     from iodata.__main__ import convert
 
@@ -234,6 +256,11 @@ def exec_call(call, prep, disk, prefix):
         if call.get("faults") and "out" in call:
             disk.plans[prefix + call["out"]] = seams.WritePlan.from_faults(call["faults"])
         if op == "dump_one":
+            if call.get("first") and not reference:
+                try:
+                    iodata.dump_one(prep["obj"], prefix + call["first"][1], fmt=call["first"][0], allow_changes=call.get("allow_changes", False))
+                except Exception:  # noqa: BLE001 - only the second dump is the subject
+                    pass
             out = prefix + call["out"]
             fmt = call["fmt"] if call.get("explicit") or call["fmt"] == "json_qcschema" else None
             r = iodata.dump_one(prep["obj"], out, fmt=fmt, allow_changes=call.get("allow_changes", False))
@@ -271,7 +298,7 @@ def _child_reference(call, wfd):
         probe = sched.GlobalStoreProbe()
         disk = seams.SimDisk(log_events=False)
         with seams.Installed(disk), sched.Steps(sched=probe):
-            rec = exec_call(call, prep, disk, "")
+            rec = exec_call(call, prep, disk, "", reference=True)
         # does this call write process-global state of any kind (tables, memo caches, rebound names)?
         stateful = bool(probe.hits) or bool(guard.changed()) or bool(canon.clear_function_caches())
         payload = pickle.dumps(("ok", (rec, stateful, sorted(probe.sites))))
@@ -344,7 +371,7 @@ def _call_name(call):
 def _save_warn_state():
     import numpy as np
 
-    return (warnings.filters[:], warnings.showwarning, getattr(warnings, "_showwarnmsg_impl", None), np.geterr())
+    return (warnings.filters[:], warnings.showwarning, getattr(warnings, "_showwarnmsg_impl", None), np.geterr(), sys.stdout, sys.stderr)
 
 
 def _restore_warn_state(st):
@@ -358,6 +385,7 @@ def _restore_warn_state(st):
     import numpy as np
 
     np.seterr(**st[3])  # the floating-point error state of the main thread is process state as well
+    sys.stdout, sys.stderr = st[4], st[5]  # (a writer that redirects the process-wide stdout must not leak into later runs)
     return changed
 
 
@@ -433,8 +461,12 @@ def run_threads(trace, refs, rng=None, stats=None):
         return body
 
     wst = _save_warn_state()
-    with seams.Installed(disk), sched.Steps(sched=baton) as st:
-        done = baton.run([make(i) for i in range(len(clients))])
+    try:
+        with seams.Installed(disk), sched.Steps(sched=baton) as st:
+            done = baton.run([make(i) for i in range(len(clients))])
+    except sched.SchedulerStall as exc:
+        _restore_warn_state(wst)
+        return [_v("stall_under_interleaving", str(exc), trace, "stall")], results, baton, 0
     warn_left = _restore_warn_state(wst)
     for c in done:
         if c.error is not None:
@@ -505,7 +537,7 @@ for cid in {ids!r}:
     prep = c16.prepare_call(call)
     disk = seams.SimDisk(log_events=False)
     with seams.Installed(disk):
-        out[cid] = c16.exec_call(call, prep, disk, "")
+        out[cid] = c16.exec_call(call, prep, disk, "", reference=True)
     break  # one call per fresh interpreter
 print("FRESH " + json.dumps(out))
 """
